@@ -1,6 +1,7 @@
 (* Proofs about collection filters, bounds and the list protocol (C18). *)
 From Coq Require Import QArith Permutation Sorted.
 From GV Require Import Prelude CollM CollP CollP2 FilterM.
+From GV Require TimeM TimeP.
 Open Scope Z_scope.
 
 (* a collection as the constructors leave it: a Track holds only shapes with dt, by start *)
@@ -64,7 +65,6 @@ Proof. intros H. unfold filter_with. cbn. rewrite H. reflexivity. Qed.
 Section Delegated.
   Variable query : Type.
   Variable prop_test : Z -> shape -> option bool.
-  Variable sh_eq : shape -> shape -> bool.
 
   Definition prop_keep (key : Z) (x : shape) : bool :=
     match prop_test key x with Some b => b | None => false end.
@@ -99,6 +99,10 @@ Section Delegated.
     - rewrite prop_loop_ok by exact H. reflexivity.
   Qed.
 
+End Delegated.
+
+Section Contains.
+  Variable sh_eq : shape -> shape -> bool.
   Lemma coll_contains_spec c x :
     coll_contains sh_eq c x = true <->
     exists y, In y (members c) /\ (sid y = sid x \/ sh_eq y x = true).
@@ -107,7 +111,7 @@ Section Delegated.
     - apply orb_true_iff in H. destruct H; [left; lia|right; assumption].
     - apply orb_true_iff. destruct H; [left; lia|right; assumption].
   Qed.
-End Delegated.
+End Contains.
 
 (* ------------------------------------------------------------------ list protocol *)
 Lemma coll_len_spec c : coll_len c = Z.of_nat (length (members c)) /\ 0 <= coll_len c.
@@ -297,3 +301,57 @@ Section Hull.
     apply in_flat_map. exists m. split; assumption.
   Qed.
 End Hull.
+
+(* ------------------------------------------------------------------ constructors give wf_coll *)
+Lemma rewrap_as_wf k l c : rewrap_as k l = Ok c ->
+  ckind c = k /\ wf_coll c /\ Permutation (members c) l /\
+  (k = FC -> members c = l) /\
+  (k = TR -> forall s, filter (keyis sstart s) (members c) = filter (keyis sstart s) l).
+Proof.
+  destruct k; cbn; intros H.
+  - apply ok_inj in H. subst c. cbn. repeat split; auto; discriminate.
+  - destruct (forallb has_dt l) eqn:E; [|discriminate]. apply ok_inj in H. subst c. cbn.
+    split; [reflexivity|]. split; [|split; [apply isort_perm|split; [discriminate|]]].
+    + unfold wf_coll. cbn. split; [|apply isort_sorted].
+      apply forallb_forall. intros x Hx. rewrite forallb_forall in E. apply E.
+      eapply Permutation_in; [apply isort_perm|exact Hx].
+    + intros _ s. apply isort_stable.
+Qed.
+
+Lemma rewrap_as_err k l : rewrap_as k l = Err ValueError <-> k = TR /\ exists x, In x l /\ sdt x = None.
+Proof.
+  destruct k; cbn.
+  - split; [discriminate|intros [? _]; discriminate].
+  - destruct (forallb has_dt l) eqn:E.
+    + split; [discriminate|]. intros [_ (x & Hx & N)]. rewrite forallb_forall in E.
+      specialize (E x Hx). unfold has_dt in E. rewrite N in E. discriminate.
+    + split; [|reflexivity]. intros _. split; [reflexivity|].
+      assert (H : ~ (forall x, In x l -> has_dt x = true)) by (rewrite <- forallb_forall; congruence).
+      clear E. induction l as [|y l IH]; [exfalso; apply H; intros ? []|].
+      destruct (sdt y) eqn:Ey.
+      * destruct IH as (x & Hx & N).
+        { intros A. apply H. intros x [<-|Hx]; [unfold has_dt; rewrite Ey; reflexivity|auto]. }
+        exists x. split; [right; exact Hx|exact N].
+      * exists y. split; [left; reflexivity|exact Ey].
+Qed.
+
+(* the per-shape time predicate of filter_by_dt(TimeInterval): the shape has dt and the two
+   time sets (C06 semantics) share an instant *)
+Lemma p_dt_interval_spec a b x : a <= b ->
+  (forall s e, sdt x = Some (s, e) -> s <= e) ->
+  (p_dt_interval a b x = true <->
+   exists s e, sdt x = Some (s, e) /\
+     exists t : Q, TimeP.mem t (TimeM.mkiv a b) /\ TimeP.mem t (TimeM.mkiv s e)).
+Proof.
+  intros Hab W. unfold p_dt_interval. destruct (sdt x) as [[s e]|].
+  - specialize (W s e eq_refl). rewrite (TimeP.intersects_spec (TimeM.mkiv a b) (TimeM.mkiv s e) Hab W).
+    split; [intros H; exists s, e; split; [reflexivity|exact H]|].
+    intros (s' & e' & E & H). injection E as <- <-. exact H.
+  - split; [discriminate|]. intros (s & e & E & _). discriminate.
+Qed.
+
+Lemma p_dt_instant_spec d x : p_dt_instant d x = true <-> sdt x = Some (d, d).
+Proof.
+  unfold p_dt_instant. destruct (sdt x) as [[s e]|]; [|split; discriminate].
+  split; [intros H; f_equal; f_equal; lia|]. intros H. injection H as -> ->. lia.
+Qed.
